@@ -20,6 +20,7 @@
 package pool
 
 import (
+	"bytes"
 	"fmt"
 	"reflect"
 	"runtime"
@@ -146,42 +147,50 @@ func TakeAlarms() []string {
 
 func alarm(format string, args ...interface{}) {
 	shimMu.Lock()
+	alarmLocked(format, args...)
+	shimMu.Unlock()
+}
+
+// alarmLocked requires shimMu to be held.
+func alarmLocked(format string, args ...interface{}) {
 	if len(alarms) < 64 {
 		alarms = append(alarms, fmt.Sprintf(format, args...))
 	}
-	shimMu.Unlock()
 }
 
 // VerifyQuarantine checks that no object currently owned by the pools (LIFO
 // stacks and the ReuseNever quarantine) was modified since it was Put. It
 // returns the number of objects checked.
 func VerifyQuarantine() int {
+	// The whole walk happens under shimMu, which Get and Put also take while
+	// they move an object in or out of the pool: an object is never checked
+	// while somebody legitimately owns it.
 	shimMu.Lock()
-	es := make([]*entry, 0, len(inPool)+len(quarantine))
+	defer shimMu.Unlock()
+	n := 0
 	for _, e := range inPool {
-		es = append(es, e)
-	}
-	es = append(es, quarantine...)
-	shimMu.Unlock()
-	for _, e := range es {
 		checkEntry(e, "quarantine")
+		n++
 	}
-	return len(es)
+	for _, e := range quarantine {
+		checkEntry(e, "quarantine")
+		n++
+	}
+	return n
 }
 
 // DrainAll forgets every pooled object (so that the next case starts clean).
 func DrainAll() {
+	ps := allPools()
 	shimMu.Lock()
 	inPool = map[uintptr]*entry{}
 	quarantine = nil
-	shimMu.Unlock()
-	for _, p := range allPools() {
+	for _, p := range ps {
 		for _, c := range p.pool {
-			c.mu.Lock()
 			c.stack = nil
-			c.mu.Unlock()
 		}
 	}
+	shimMu.Unlock()
 }
 
 var (
@@ -279,31 +288,67 @@ func byteSlices(x interface{}) [][]byte {
 	return out
 }
 
-func poisonEntry(e *entry) {
-	e.poison = true
-	e.pat = 0xA5 ^ byte(atomic.AddUint32(&patSeq, 1)*7)
-	for _, b := range byteSlices(e.x) {
-		for i := range b {
-			b[i] = e.pat
+var patBlocks [256][]byte
+
+func init() {
+	for i := range patBlocks {
+		patBlocks[i] = make([]byte, 4096)
+		for j := range patBlocks[i] {
+			patBlocks[i][j] = byte(i)
 		}
 	}
 }
 
+func fill(b []byte, pat byte) {
+	blk := patBlocks[pat]
+	for len(b) > 0 {
+		n := copy(b, blk)
+		b = b[n:]
+	}
+}
+
+// firstMismatch returns the offset of the first byte != pat, or -1.
+func firstMismatch(b []byte, pat byte) int {
+	blk := patBlocks[pat]
+	off := 0
+	for len(b) > 0 {
+		n := len(b)
+		if n > len(blk) {
+			n = len(blk)
+		}
+		if !bytes.Equal(b[:n], blk[:n]) {
+			for i := 0; i < n; i++ {
+				if b[i] != pat {
+					return off + i
+				}
+			}
+		}
+		b = b[n:]
+		off += n
+	}
+	return -1
+}
+
+func poisonEntry(e *entry) {
+	e.poison = true
+	e.pat = 0xA5 ^ byte(atomic.AddUint32(&patSeq, 1)*7)
+	for _, b := range byteSlices(e.x) {
+		fill(b, e.pat)
+	}
+}
+
+// checkEntry requires shimMu to be held.
 func checkEntry(e *entry, when string) {
 	if !e.poison {
 		return
 	}
 	statChecked.Add(1)
 	for k, b := range byteSlices(e.x) {
-		for i := range b {
-			if b[i] != e.pat {
-				alarm("write-after-put: object %T slice#%d offset %d holds %#02x, pattern %#02x (detected at %s); put by: %s", e.x, k, i, b[i], e.pat, when, e.putSite)
-				// re-poison so the same write is reported once.
-				for j := range b {
-					b[j] = e.pat
-				}
-				return
-			}
+		if i := firstMismatch(b, e.pat); i >= 0 {
+			alarmLocked("write-after-put: object %T slice#%d offset %d holds %#02x, pattern %#02x (detected at %s); put by: %s", e.x, k, i, b[i], e.pat, when, e.putSite)
+			// re-poison so the same write is reported once.
+			fill(b, e.pat)
+			return
 		}
 	}
 }
@@ -311,6 +356,10 @@ func checkEntry(e *entry, when string) {
 // Get pulls object whose generic size is at least of given size.
 // It also returns a real size of x for further pass to Put() even if x is nil.
 // Note that size could be ceiled to the next power of two.
+//
+// Shim: one coarse lock (shimMu) serialises every move of an object into or
+// out of a pool together with its pattern check, so the monitor's own state is
+// updated atomically with the state it shadows.
 func (p *Pool) Get(size int) (interface{}, int) {
 	n := p.size(size)
 	c := p.pool[n]
@@ -321,49 +370,37 @@ func (p *Pool) Get(size int) (interface{}, int) {
 		runtime.Gosched()
 	}
 	statGets.Add(1)
-	switch shimReuse.Load() {
-	case ReuseLIFO:
-		c.mu.Lock()
-		var e *entry
+	reuse := shimReuse.Load()
+	if reuse == ReuseNever {
+		return nil, n
+	}
+	var e *entry
+	if reuse == ReuseSync {
+		if v := c.sp.Get(); v != nil {
+			e = v.(*entry)
+		}
+	}
+	shimMu.Lock()
+	if reuse == ReuseLIFO {
 		if k := len(c.stack); k > 0 {
 			e = c.stack[k-1]
 			c.stack = c.stack[:k-1]
 		}
-		c.mu.Unlock()
-		if e == nil {
-			return nil, n
-		}
-		checkEntry(e, "get")
-		if id := identity(e.x); id != 0 {
-			shimMu.Lock()
-			delete(inPool, id)
-			shimMu.Unlock()
-		}
-		statReuse.Add(1)
-		if shimTrack.Load() && e.putGoID != 0 && e.putGoID != goid() {
-			statHandoff.Add(1)
-		}
-		return e.x, n
-	case ReuseNever:
-		return nil, n
-	default:
-		v := c.sp.Get()
-		if v == nil {
-			return nil, n
-		}
-		e := v.(*entry)
-		checkEntry(e, "get")
-		if id := identity(e.x); id != 0 {
-			shimMu.Lock()
-			delete(inPool, id)
-			shimMu.Unlock()
-		}
-		statReuse.Add(1)
-		if shimTrack.Load() && e.putGoID != 0 && e.putGoID != goid() {
-			statHandoff.Add(1)
-		}
-		return e.x, n
 	}
+	if e == nil {
+		shimMu.Unlock()
+		return nil, n
+	}
+	checkEntry(e, "get")
+	if id := identity(e.x); id != 0 {
+		delete(inPool, id)
+	}
+	shimMu.Unlock()
+	statReuse.Add(1)
+	if shimTrack.Load() && e.putGoID != 0 && e.putGoID != goid() {
+		statHandoff.Add(1)
+	}
+	return e.x, n
 }
 
 // Put takes x and its size for future reuse.
@@ -386,41 +423,36 @@ func (p *Pool) Put(x interface{}, size int) {
 	}
 	id := identity(x)
 	reuse := shimReuse.Load()
+	shimMu.Lock()
 	if id != 0 && (poison || reuse != ReuseSync) {
-		shimMu.Lock()
 		if prev, dup := inPool[id]; dup {
+			alarmLocked("double-put: object %T put again while still owned by the pool; first put by: %s; second put by: %s", x, prev.putSite, callSite())
 			shimMu.Unlock()
-			alarm("double-put: object %T put again while still owned by the pool; first put by: %s; second put by: %s", x, prev.putSite, callSite())
 			return
 		}
 		if reuse != ReuseNever {
 			inPool[id] = e
 		}
-		shimMu.Unlock()
 	}
 	if poison {
 		poisonEntry(e)
 	}
 	switch reuse {
 	case ReuseLIFO:
-		c.mu.Lock()
 		c.stack = append(c.stack, e)
-		c.mu.Unlock()
+		shimMu.Unlock()
 	case ReuseNever:
 		statDropped.Add(1)
 		if poison {
-			shimMu.Lock()
 			quarantine = append(quarantine, e)
 			if len(quarantine) > 256 {
-				old := quarantine[0]
+				checkEntry(quarantine[0], "quarantine-evict")
 				quarantine = quarantine[1:]
-				shimMu.Unlock()
-				checkEntry(old, "quarantine-evict")
-			} else {
-				shimMu.Unlock()
 			}
 		}
+		shimMu.Unlock()
 	default:
+		shimMu.Unlock()
 		c.sp.Put(e)
 	}
 }
